@@ -218,6 +218,8 @@ def run(chk):
                             worst[T] = max(worst.get(T, 0.0), float(best))
                     except ev.Inconclusive:
                         undecided[0] += 1
+    n_emb = embeddings(chk)
+    chk.floor("planar <-> 3-D embeddings (x3 numeric types)", n_emb, 24)
     chk.floor("inverse pairs (x3 numeric types)", n_pairs, 900)
     chk.coverage["pairs"] = n_pairs
     chk.coverage["round_trip_error_bound_decided"] = decided[0]
@@ -227,3 +229,62 @@ def run(chk):
         chk.holds("R2", "a-priori round-trip bounds", "%d round trips without cancellation: relative error <= %s u; %d with a subtraction of rounded values not decided" % (decided[0], worst, undecided[0]), "")
     chk.coverage["skipped_projection_or_branching"] = skipped
     chk.coverage["ambiguous_same_type_signatures_without_inverse"] = ambiguous
+
+
+def embeddings(chk):
+    """R3: planar -> three-dimensional -> planar is the identity, exactly (slot-wise same leaf, no arithmetic)."""
+    chk.rule("R3", "for every planar type P with a three-dimensional counterpart Q: P(Q(p)) has every slot equal to the same slot of p (exact; no arithmetic), "
+                   "and Q(p) has p's components in x, y and zero in z")
+    n = 0
+    for T in NUMERIC:
+        F = facts.load(T, chk.tier)
+        cands = {}
+        for name, rec in F.records.items():
+            if not name.endswith("<%s>" % T) or not name.startswith("PhQ::"):
+                continue
+            sh = shapes.shape_of_type(F, name)
+            if sh in ("planar", "vector"):
+                cands[name] = sh
+        for pname, sh in sorted(cands.items()):
+            if sh != "planar":
+                continue
+            for qname, sh2 in sorted(cands.items()):
+                if sh2 != "vector":
+                    continue
+                up = [f for f in F.methods(qname) if f["kind"] == "ctor" and "body" in f and len(f["params"]) == 1 and strip_cvref(F.T(f["params"][0]["t"])) == pname]
+                down = [f for f in F.methods(pname) if f["kind"] == "ctor" and "body" in f and len(f["params"]) == 1 and strip_cvref(F.T(f["params"][0]["t"])) == qname]
+                if not up or not down:
+                    continue
+                n += 1
+                inst = "%s -> %s -> %s" % (pname.replace("PhQ::", ""), qname.replace("PhQ::", ""), pname.replace("PhQ::", ""))
+                loc = short(down[0].get("def_loc", down[0]["loc"]))
+                try:
+                    E = ev.Evaluator(F)
+                    p0 = E.symbolic(pname, "p")
+                    qlv = E.new_loc(E.blank(qname), "this")
+                    E.call(up[0]["id"], qlv, [E.new_loc(p0, "arg")])
+                    qv = E.load(qlv)
+                    plv = E.new_loc(E.blank(pname), "this")
+                    E.call(down[0]["id"], plv, [E.new_loc(qv, "arg")])
+                    back = [t for _, t in ev.flatten(E.load(plv))]
+                    orig = [t for _, t in ev.flatten(p0)]
+                    up_slots = [t for _, t in ev.flatten(qv)]
+                    is_dir = "Direction<" in pname
+                    if is_dir:
+                        # directions re-normalise on the way: compare algebraically under |p| = 1 is out of reach; require the
+                        # numerators to be the original slots in order
+                        from .c10 import classify_direction_value, strip_cast
+                        k1, d1 = classify_direction_value(up_slots, set())
+                        ok = k1 == "normalised" and [strip_cast(c) for c in d1[:2]] == orig and d1[2] == ev.ZERO
+                        detail = "3-D direction normalises (p.x, p.y, 0)"
+                    else:
+                        ok = back == orig and up_slots[:2] == orig and up_slots[2] == ev.ZERO
+                        detail = "slots preserved exactly; z = 0"
+                    if ok:
+                        chk.holds("R3", inst, detail, loc)
+                    else:
+                        chk.violated("R3", inst, "embedding gives %s and the way back gives %s (expected the original slots %s)" % ([ev.show(x)[:40] for x in up_slots], [ev.show(x)[:40] for x in back], [ev.show(x) for x in orig]), loc)
+                except ev.Inconclusive as x:
+                    chk.inconclusive("R3", inst, str(x), loc)
+    chk.coverage["embeddings"] = n
+    return n
